@@ -26,6 +26,7 @@ NETS = {
     "merge": dict(pools={"A": 1, "B": 1, "C": 2}, inner=({"A": -1, "B": -1, "C": 1}, ["A", "B"]), inn=["A", "B"], out=["C"]),
     "split": dict(pools={"C": 2, "A": 1, "B": 1}, inner=({"C": -1, "A": 1, "B": 1}, ["C"]), inn=["C"], out=["A", "B"]),
     "exchange": dict(pools={"A": 1, "B": 1, "C": 1, "D": 1}, inner=({"A": -1, "B": -1, "C": 1, "D": 1}, ["A", "B"]), inn=["A", "B"], out=["C", "D"]),
+    "split_dimer": dict(pools={"F": 4, "G": 2}, inner=({"F": -1, "G": 2}, ["F"]), inn=["F"], out=["G"], out_flux={"G": 2}, involutive=True),
     "two_steps": dict(pools={"A": 2, "B": 2, "C": 2}, inner=({"A": -1, "B": 1}, ["A"]), inner2=({"B": -1, "C": 1}, ["B"], (1, 0)), inn=["A"], out=["C"]),
     # species declared in non-alphabetical order with asymmetric label counts (involutive maps only, see the open finding)
     "merge_qp": dict(pools={"Q": 2, "P": 1, "R": 3}, inner=({"Q": -1, "P": -1, "R": 1}, ["Q", "P"]), inn=["Q", "P"], out=["R"], involutive=True),
@@ -80,11 +81,12 @@ class Lin(Scenario):
             maps["v2"] = list(map2)
             fluxes["v2"] = v
         for p in spec["out"]:
-            base.add_parameter(f"kout_{p}", v / c[p])
+            mult = spec.get("out_flux", {}).get(p, 1)  # the efflux balances the net production of the pool
+            base.add_parameter(f"kout_{p}", mult * v / c[p])
             base.add_reaction(f"vout_{p}", ma1, args=[p, f"kout_{p}"], stoichiometry={p: -1})
             maps[f"vout_{p}"] = list(range(pools[p]))
-            fluxes[f"vout_{p}"] = v
-        ext = ctx.real("ext") if self.mode == "uniform" else 1.0
+            fluxes[f"vout_{p}"] = mult * v
+        ext = ctx.real("ext") if self.mode in ("uniform", "uniform_after_update") else 1.0
         with ctx.impl("LabelMapper.build_model"):
             iso_mapper = LabelMapper(base, label_variables=dict(pools), label_maps={k: list(m) for k, m in maps.items()})
             iso = iso_mapper.build_model()
@@ -92,10 +94,13 @@ class Lin(Scenario):
             lin = LinearLabelMapper(base, label_variables=dict(pools), label_maps={k: list(m) for k, m in maps.items()}).build_model(
                 concs=pd.Series(dict(c), dtype=object if ctx.symbolic else float),
                 fluxes=pd.Series(fluxes, dtype=object if ctx.symbolic else float),
-                external_label=ext,
+                external_label=0.0 if self.mode == "uniform_after_update" else ext,
             )
+            if self.mode == "uniform_after_update":
+                # the documented way to change the external enrichment of a built model
+                lin.update_parameter("EXT", ext)
         lin_names = lin.get_variable_names()
-        if self.mode == "uniform":
+        if self.mode in ("uniform", "uniform_after_update"):
             # uniform enrichment equal to the external pool is stationary for any external value
             with ctx.impl("linear rhs"):
                 out = lin(0.0, [ext for _ in lin_names])
@@ -163,4 +168,5 @@ def scenarios(tier, seed):
         scs.append(Lin(net, perms[0], mode="uniform"))
         scs.append(Lin(net, perms[-1], mode="uniform"))
         scs.append(Lin(net, perms[0], mode="nolabel"))
+        scs.append(Lin(net, perms[-1], mode="uniform_after_update"))
     return scs
